@@ -121,7 +121,7 @@ func TestDemoHalfSwappedReplacement(t *testing.T) {
 	}
 	l2.Close()
 	base, base2 := filepath.Join(dir, "00000000000000000000"), filepath.Join(dir2, "00000000000000000000")
-	demoCopy(t, base2+".log", base+".log")              // rename #1 happened
+	demoCopy(t, base2+".log", base+".log")               // rename #1 happened
 	demoCopy(t, base2+".index", base+".index.truncated") // rename #2 did not
 	l, err := New(opts)
 	if err != nil {
